@@ -1212,6 +1212,12 @@ def classify(s, res=None):
     fs = _failures_of(r, s['ops'])
     upto = fs[0][0] if fs else len(s['ops']) - 1
     first = fs[0][1] if fs else ''
+    if fs and upto >= 0 and ('not finite' in first or 'weight nan' in first) and s['ops'][upto]['op'] in ('raise', 'append', 'identical'):
+        st = r['steps'][upto]
+        if 'changed' in st and any(len(c[1]['bases']) == 1 for c in st['changed']):
+            # Curve.raise_order (also inside append / make_splines_identical) solved a singular collocation system:
+            # a knot of multiplicity >= order, or end knots that differ by rounding (after roll / append / reparam)
+            return CLASS_RAISE_NAN
     # labels that explain an ORACLE failure, in the order of the calls up to the first failing one
     for n, fl in enumerate(r['flags']):
         if n > upto:
